@@ -74,11 +74,30 @@ func coResume(L *LState) int {
 		th.Panic = panicWithoutTraceback
 	} else {
 		nargs := L.GetTop() - 1
+		base := th.reg.Top()
 		L.XMoveTo(th, nargs)
+		adjustYieldResults(th, base)
 	}
 	top := L.GetTop()
 	threadRun(th)
 	return L.GetTop() - top
+}
+
+// adjustYieldResults is called when a suspended thread is resumed, after the resume values have
+// been moved to its registers starting at base. They are the results of the call that yielded:
+// if the calling instruction expects a fixed number of results they are truncated or padded with
+// nil, exactly as the results of any other call.
+func adjustYieldResults(th *LState, base int) {
+	cf := th.currentFrame
+	if cf == nil || cf.Fn.IsG || cf.Pc < 1 {
+		return
+	}
+	inst := cf.Fn.Proto.Code[cf.Pc-1]
+	if opGetOpCode(inst) == OP_CALL {
+		if c := opGetArgC(inst); c > 0 {
+			th.reg.SetTop(base + c - 1)
+		}
+	}
 }
 
 func coRunning(L *LState) int {
